@@ -87,6 +87,7 @@ def judge_negation(ctx, graph, top, info, explicit_id, result, via):
     ids, bounds = common.leaf_box(graph, top)
     order = refmodel.topo(graph, top)
     cap = common.point_cap(ctx.tier, 48, 400)
+    cap = min(cap, max(6, 1500 // max(1, len(graph))))      # very deep models: every nested negate() is judged, keep the product bounded
     rng = _rng(ctx)
     seen_vals = set()
     bad = None
@@ -140,6 +141,10 @@ def install(ctx):
 
 
 def gen_case(rng, tier, ctx, i):
+    if rng.random() < 0.025:
+        rec = common.deep_chain(rng, rng.randint(34, 46))        # very deep nesting
+        ctx.count("count:deep-models")
+        return {"recipe": rec, "via": rng.choice(["negate", "Not"])}
     if rng.random() < 0.15:
         from . import c04
         ctx.count("count:bounded-sweep-formulas")        # the deterministic enumeration of small formulas shared with C04
